@@ -1344,7 +1344,7 @@ void SpearmanCorrelMatrix(matrix* msrc, matrix* mdst)
 
     for(i = 0; i < vtosort->size; i++){
       for(j = 0; j < rankm->row; j++){
-        if(FLOAT_EQ(vtosort->data[i], rankm->data[j][0], EPSILON)){
+        if(vtosort->data[i] == rankm->data[j][0]){
           rankm->data[j][2] = i+1;
           break;
         }
@@ -1363,7 +1363,7 @@ void SpearmanCorrelMatrix(matrix* msrc, matrix* mdst)
       DVectorSort(vtosort);
       for(i = 0; i < vtosort->size; i++){
         for(l = 0; l < rankm->row; l++){
-          if(FLOAT_EQ(vtosort->data[i], rankm->data[l][1], EPSILON)){
+          if(vtosort->data[i] == rankm->data[l][1]){
             rankm->data[l][3] = i+1;
             break;
           }
